@@ -60,6 +60,7 @@ def setup(ctx):
     from .. import retain as _rt
 
     _mon.attach(Trajectory, 'transitions_between_sites', label='Trajectory.transitions_between_sites', retain=_rt.transitions)
+    _mon.attach(gt.Transitions, 'from_trajectory', label='Transitions.from_trajectory', retain=_rt.transitions)
     _mon.attach(gt, '_calculate_atom_states', pre=_record_states_args, optional=True, label='_calculate_atom_states')
     _mon.attach(gt, '_compute_site_radius', post=_record_auto, optional=True, label='_compute_site_radius')
 
